@@ -26,6 +26,7 @@ type backend struct {
 	closeFaults bool
 	panics      int // panics injected so far
 	errKinds    bool // draw error *values* of many kinds (linux / syscall errno, os.Err*, wrapped, opaque)
+	dirRoot     bool        // the root is always a directory
 	forceKind   p9.FileMode // if non-zero: mode of the next file created by a named walk
 	lastNew     int         // id of the handle created last
 	fullReads   bool // ReadAt always fills the buffer (C13 boundary runs)
@@ -74,7 +75,7 @@ func (b *backend) Attach() (p9.File, error) {
 	}
 	b.mu.Lock()
 	f := b.newFileLocked(p9.ModeDirectory | 0755)
-	if b.r.chance(1, 30) {
+	if !b.dirRoot && b.r.chance(1, 30) {
 		b.kind[f.id] = uint32(b.randKind()) // a root that is not a directory now and then
 	}
 	b.mu.Unlock()
@@ -228,7 +229,7 @@ func maskToInt(a p9.AttrMask) uint64 {
 
 func (b *backend) attrFor(h int) (p9.AttrMask, uint64, p9.Attr, []uint64) {
 	valid := uint64(0x3fff)
-	if b.r.chance(1, 25) {
+	if !b.dirRoot && b.r.chance(1, 25) {
 		valid = b.r.bits(14)
 	}
 	a := p9.Attr{Mode: p9.FileMode(b.kind[h]), UID: p9.UID(b.r.bits(32)), GID: p9.GID(b.r.bits(32)), NLink: p9.NLink(b.r.bits(8)), RDev: p9.Dev(b.r.bits(16)),
@@ -263,7 +264,7 @@ func (f *sfile) walkCommon(meth string, names []string, withAttr bool) ([]p9.QID
 		return nil, nil, p9.AttrMask{}, p9.Attr{}, linux.ENOSYS
 	}
 	nq := len(names)
-	if len(names) == 1 && b.r.chance(1, 40) {
+	if !b.dirRoot && len(names) == 1 && b.r.chance(1, 40) {
 		nq = b.r.intn(3) // wrong number of QIDs now and then
 	}
 	var qids []p9.QID
